@@ -387,6 +387,10 @@ pub struct RoutingCase {
     pub mock_mask: u8,
     /// (instrument selector, buy)
     pub probes: Vec<(u16, bool)>,
+    /// the burst is handed to an `Engine` as ONE `SendOpenRequests` command (one batch spanning the
+    /// exchanges) instead of being written to the links request by request
+    #[serde(default)]
+    pub engine_batch: bool,
 }
 
 pub struct LinkRouting;
@@ -412,11 +416,13 @@ impl Check for LinkRouting {
             (2u8..=4).prop_flat_map(move |n| prop::collection::vec((0..n, 0u8..5, 0u8..4), 2..=max)),
             1u8..32,
             prop::collection::vec((any::<u16>(), any::<bool>()), 1..6),
+            any::<bool>(),
         )
-            .prop_map(|(raw, mock_mask, probes)| RoutingCase {
+            .prop_map(|(raw, mock_mask, probes, engine_batch)| RoutingCase {
                 defs: raw.into_iter().map(|(exchange, base, dq)| InstrumentDef { exchange, base, quote: (base + 1 + dq) % 5, kind: world::KindDef::Spot, unit: world::UnitDef::NoSpec }).collect(),
                 mock_mask,
                 probes,
+                engine_batch,
             })
             .boxed()
     }
@@ -445,7 +451,7 @@ impl Check for LinkRouting {
             case.mock_mask & (1 << bit) != 0
         }).collect();
         let rt = tokio::runtime::Builder::new_current_thread().enable_time().start_paused(true).build().expect("runtime");
-        let outcome: Result<(u32, u32, bool), (String, String)> = rt.block_on(async {
+        let outcome: Result<(u32, u32, bool, usize), (String, String)> = rt.block_on(async {
             let mut builder = ExecutionBuilder::new(&indexed);
             for (e, ex) in indexed.exchanges().iter().enumerate() {
                 if !mocked[e] {
@@ -544,6 +550,8 @@ impl Check for LinkRouting {
             // ---- burst: the same probes again, all in flight together; different instruments share
             // one client order id (ids are unique per instrument only) --------------------------------
             let mut sent_keys: Vec<OrderKey> = Vec::new();
+            let mut batch: Vec<OrderRequestOpen<ExchangeIndex, InstrumentIndex>> = Vec::new();
+            let mut batch_exchanges = 0usize;
             for (n, (sel, buy)) in case.probes.iter().enumerate() {
                 let inst = &indexed.instruments()[(*sel as usize * indexed.instruments().len()) >> 16];
                 let e = inst.value.exchange.key;
@@ -551,10 +559,22 @@ impl Check for LinkRouting {
                 let shared = OrderKey { exchange: e, instrument: inst.key, strategy: StrategyId::new("s"), cid: ClientOrderId::new("burst") };
                 let key = if sent_keys.contains(&shared) { OrderKey { cid: ClientOrderId::new(format!("burst-{n}")), ..shared } } else { shared };
                 let request = OrderRequestOpen { key: key.clone(), state: RequestOpen { side: if *buy { Side::Buy } else { Side::Sell }, price: Decimal::from(10), quantity: Decimal::ONE, kind: OrderKind::Market, time_in_force: TimeInForce::ImmediateOrCancel } };
-                if tx.send(ExecutionRequest::Open(request)).is_err() {
+                if case.engine_batch {
+                    batch.push(request);
+                } else if tx.send(ExecutionRequest::Open(request)).is_err() {
                     return Err(("link-closed".to_string(), format!("the execution link of exchange index {} does not accept requests", e.index())));
                 }
                 sent_keys.push(key);
+            }
+            if case.engine_batch && !batch.is_empty() {
+                use barter::{EngineEvent, engine::{Engine, Processor, command::Command, execution_tx::MultiExchangeTxMap}, risk::DefaultRiskManager, strategy::DefaultStrategy};
+                use crate::props::{enginekit::TestClock, world::DefaultState};
+                // an engine holding the very same links
+                let links: MultiExchangeTxMap = indexed.exchanges().iter().map(|e| (e.value, execution.execution_txs.find(&e.key).ok().cloned())).collect();
+                let mut engine: Engine<TestClock, DefaultState, MultiExchangeTxMap, DefaultStrategy<DefaultState>, DefaultRiskManager<DefaultState>> =
+                    Engine::new(TestClock(ts(T0_MS)), world::engine_state(&indexed, TradingState::Disabled), links, DefaultStrategy::default(), DefaultRiskManager::default());
+                batch_exchanges = { let mut v: Vec<usize> = batch.iter().map(|r| r.key.exchange.index()).collect(); v.sort(); v.dedup(); v.len() };
+                let _ = engine.process(EngineEvent::<barter_data::event::DataKind>::Command(Command::SendOpenRequests(barter_integration::collection::one_or_many::OneOrMany::Many(batch))));
             }
             let events = drain(&mut rx, 1500).await;
             let mut answered: Vec<OrderKey> = Vec::new();
@@ -590,11 +610,12 @@ impl Check for LinkRouting {
                 return Err(("burst-fills".to_string(), format!("burst: fills reported for instruments {got_fills:?}, orders were for {want_fills:?}")));
             }
             let shared_cid = sent_keys.iter().filter(|k| k.cid.0 == "burst").count() >= 2;
-            Ok((routed, absent, shared_cid))
+            Ok((routed, absent, shared_cid, batch_exchanges))
         });
         match outcome {
-            Ok((routed, absent, shared_cid)) => {
+            Ok((routed, absent, shared_cid, batch_exchanges)) => {
                 rep.class_if(shared_cid, "requests_in_flight_together_sharing_a_client_order_id");
+                rep.class_if(batch_exchanges >= 2, "one_engine_command_spanning_two_or_more_links");
                 let first_mocked = mocked.iter().position(|m| *m);
                 rep.class_if(routed > 0, "request_routed_through_link");
                 rep.class_if(absent > 0, "probe_for_data_only_exchange");
@@ -609,7 +630,7 @@ impl Check for LinkRouting {
 }
 
 pub fn run(ctx: &mut Ctx) {
-    ctx.rule = "index_name_translation: 1..9|14 instrument definitions over 1..4 exchanges (exchange instrument names such as BTCUSDT and asset names deliberately shared between exchanges); for EVERY exchange's map and EVERY global instrument/asset index (own and foreign): index->name, name->index, outbound request translation, inbound translation of order snapshot / rejected order / cancel response / trade / full snapshot (also one that lists the order under another instrument's entry) / balance, a name's other letter case must not translate, and application to EngineState. non-trivial = >= 2 exchanges and a probed own index lies on an exchange whose first global index is > 0 (global index != per-exchange position); distinct by hash of the case. link_routing: 2..6|10 spot instruments over 2..4 exchanges, a generated subset of the exchanges gets a mock execution link (the rest are data-only); the layer is assembled with ExecutionBuilder and initialised on a paused runtime; every initial account snapshot must carry its own exchange index and asset indices; 1..5 market orders are sent through execution_txs.find(exchange index of the instrument) and the response, fill and balance events must come back with that exchange index / instrument index / spent asset index; a data-only exchange index must not resolve; finally the same orders are sent again all at once (in flight together, different instruments sharing one client order id) and the responses / fills must carry exactly the requests' keys. non-trivial = a request routed while a data-only exchange precedes the traded one in index order.".into();
+    ctx.rule = "index_name_translation: 1..9|14 instrument definitions over 1..4 exchanges (exchange instrument names such as BTCUSDT and asset names deliberately shared between exchanges); for EVERY exchange's map and EVERY global instrument/asset index (own and foreign): index->name, name->index, outbound request translation, inbound translation of order snapshot / rejected order / cancel response / trade / full snapshot (also one that lists the order under another instrument's entry) / balance, a name's other letter case must not translate, and application to EngineState. non-trivial = >= 2 exchanges and a probed own index lies on an exchange whose first global index is > 0 (global index != per-exchange position); distinct by hash of the case. link_routing: 2..6|10 spot instruments over 2..4 exchanges, a generated subset of the exchanges gets a mock execution link (the rest are data-only); the layer is assembled with ExecutionBuilder and initialised on a paused runtime; every initial account snapshot must carry its own exchange index and asset indices; 1..5 market orders are sent through execution_txs.find(exchange index of the instrument) and the response, fill and balance events must come back with that exchange index / instrument index / spent asset index; a data-only exchange index must not resolve; finally the same orders are sent again all at once (in flight together, different instruments sharing one client order id; in half of the cases as ONE SendOpenRequests command processed by an Engine holding the same links) and the responses / fills must carry exactly the requests' keys. non-trivial = a request routed while a data-only exchange precedes the traded one in index order.".into();
     ctx.assumptions = vec![
         "exchange-side instrument and asset names are unique inside one exchange".into(),
         "unique internal instrument names; one exchange name per (exchange, internal asset name)".into(),
